@@ -5,6 +5,9 @@
      kind "bigcomp" [fmt, pat, n, res, rt]  input = pat repeated to n bytes (up to 16 MiB - 1, not listed);
                                           rt = [kind, same]: own decompression compared by the harness
      kind "dec"   [entry, stream, res]    res = <entry>.decompress(stream)
+     kind "bigdec" [stream, pat, n, results]  stream of 2^16 .. 2^20 bytes built by rule (n literals of an
+                                          8-byte pattern, possibly truncated); results = <<[entry, res]>>,
+                                          res = [kind, same]: the result compared with pat repeated to n
      kind "size"  [fmt, n, p, input, ok, clen]   compress of an n-byte input of period p
                                           (p = 0: none claimed; input listed when small)
    For "comp" and "dec" the bytes produced / consumed by the library are run through
@@ -14,6 +17,8 @@
    (StreamOKd, ResAllowed; the size bounds of C10 are judged on the "size" events).
    A "bigcomp" event is judged in one step by the validating decoder (LZ!VRunPeriodic: same
    token layouts and checks, `out` replaced by the known expected output).
+   A "bigdec" event is judged in one step by the closed form LZ!LitClassify (the stream's bytes
+   are examined by TLC; MC_LZ ties the closed form to the decoder machine).
    Rejected event indices are collected in `bad`.  *)
 EXTENDS LZ, TLC, Json, IOUtils
 
@@ -47,6 +52,11 @@ Accept(ev, t) ==
          /\ ev.res.kind = "ok"
          /\ StreamOKPeriodic(ev.fmt, ev.pat, ev.n, ev.res.out)
          /\ ev.rt.kind = "ok" /\ ev.rt.same
+    [] ev.kind = "bigdec" ->
+         \A k \in 1..Len(ev.results) :
+            LET c == LitClassify(ev.results[k].entry, ev.stream, ev.pat, ev.n) IN
+            /\ Assert(c.cls # "undecided", "bigdec: stream is not a (truncated) literal stream - harness defect")
+            /\ LitResAllowed(c, ev.results[k].res)
     [] ev.kind = "dec" -> ResAllowed(ClassOf(Route(ev.entry, ev.stream), t), ev.res)
     [] ev.kind = "size" ->
          /\ ev.ok
@@ -59,6 +69,7 @@ Start(k) == IF k <= Len(Rec) THEN Dec0(Plan(Rec[k]).off) ELSE Dec0(0)
 Key(ev, t) ==
   CASE ev.kind = "comp" -> "comp:" \o t.st \o ":" \o t.why
     [] ev.kind = "bigcomp" -> "bigcomp"
+    [] ev.kind = "bigdec" -> "bigdec"
     [] ev.kind = "dec"  -> LET c == ClassOf(Route(ev.entry, ev.stream), t) IN "dec:" \o c.cls \o ":" \o c.why
     [] ev.kind = "size" -> IF ev.p > 0 THEN "size:periodic"
                            ELSE IF Periods(ev.input) # {} THEN "size:small-periodic" ELSE "size:other"
